@@ -86,6 +86,8 @@ inductive Clause where
   | seqStaleCall | seqLostCall | seqAgree   -- the call is refused: headers of a superseded definition (preflight-F32) / none / other
   | seqRefusedExact                  -- … although it carries exactly the headers the server's current definition demands
   | seqLegacy                        -- a legacy session's call is refused
+  | seqBadListed | seqBadMirror | seqBadCall   -- a tool listed with invalid annotations: handed on / mirrored / no longer callable
+  | seqOtherServer                   -- a call to one server of a handler is judged by the same-named tool of another
   | seqStaleList                     -- ListTools serves from its cache a page from before a change whose list_changed the client handled
   -- a request naming an unimplemented version ≥ 2026-07-28 in header and `_meta` is not answered -32022 / -32602 (C06 and C12)
   | unsupportedVersion (status : Nat) (code : Option Int) (handled : Nat)
